@@ -18,7 +18,7 @@ def sources(mod):
     blanks = "".join('\t_ "%s/blank%d"\n' % (mod, i) for i in (2, 0, 1))
     inj = ["//go:build wireinject\n// +build wireinject\n\npackage app\n\nimport (\n" + blanks + imps + '\t"%s/cfg"\n\t"github.com/google/wire"\n)\n' % mod]
     for i in range(NLIB):
-        inj.append("func Init%d() (l%d.T, error) {\n\tpanic(wire.Build(l%d.New))\n}\n" % (i, i, i))
+        inj.append("// Init%d builds the value of library %d.\n// It has a doc comment of two lines.\nfunc Init%d() (l%d.T, error) {\n\tpanic(wire.Build(l%d.New))\n}\n" % (i, i, i, i, i))
     vals = ", ".join("wire.Value(l%d.Default)" % i for i in range(NLIB))
     fields = "".join("\tF%d l%d.T\n" % (i, i) for i in range(NLIB))
     inj.append("type All struct {\n" + fields + "}\n")
@@ -42,7 +42,8 @@ def sources(mod):
                              "func InitS() (c.Settings, error) {\n\tpanic(wire.Build(c.New, l1.New, wrap))\n}\n" % (mod, mod))
     files["beta/b.go"] = "package beta\n\nimport (\n\tc \"%s/cfg\"\n\t\"%s/l1\"\n)\n\nvar cfg = 1\n\ntype W struct{ S c.Settings }\n\nfunc wrap(s c.Settings, t l1.T) (W, error) { return W{S: s}, nil }\n" % (mod, mod)
     files["beta/wire.go"] = ("//go:build wireinject\n// +build wireinject\n\npackage beta\n\nimport (\n\tc \"%s/cfg\"\n\t\"github.com/google/wire\"\n)\n\n"
-                             "func InitS() (c.Settings, error) {\n\tpanic(wire.Build(c.New))\n}\n" % mod)
+                             "// InitS is documented.\nfunc InitS() (c.Settings, error) {\n\tpanic(wire.Build(c.New))\n}\n\n"
+                             "// Limit is a copied declaration with a doc comment.\nconst Limit = 3 // and a trailing comment\n" % mod)
     files["beta/b.go"] = "package beta\n\nvar cfg = 1\n"
     return files
 
@@ -104,6 +105,10 @@ def eng_determinism(pid, tier, wd, known, replay=None):
         gen(base, [mod + "/app", mod + "/beta"]); collect(base, "import-path")
         gen(base, ["."], cwd=os.path.join(base, "app")); collect(base, "cwd-app", ("app",))
         gen(base, ["../beta"], cwd=os.path.join(base, "app")); collect(base, "cwd-rel", ("beta",))
+        os.makedirs(os.path.join(base, "tools", "deep"), exist_ok=True)
+        gen(base, ["../app", "../beta"], cwd=os.path.join(base, "tools")); collect(base, "cwd-sibling")
+        gen(base, ["../../beta"], cwd=os.path.join(base, "tools", "deep")); collect(base, "cwd-sibling-deep", ("beta",))
+        gen(base, [mod + "/app"], cwd=os.path.join(base, "tools")); collect(base, "cwd-sibling-import-path", ("app",))
         # a short header file, tiny packages: alone vs together
         open(os.path.join(base, "hdr.txt"), "w").write("// Copyright header.\n\n")
         hp = gen(base, ["-header_file", "hdr.txt", "./t1", "./t2"]); collect(base, "hdr-together", ("t1", "t2"))
@@ -136,7 +141,15 @@ def eng_determinism(pid, tier, wd, known, replay=None):
         p = gen(vroot, [mod + "/app", mod + "/beta"], env=genv)
         if p.returncode == 0:
             collect(vroot, "gopath-vendor")
-        stats_layout = {"gopath": "gopath" in outs, "gopath-vendor": "gopath-vendor" in outs}
+        # ... and with the wire marker package itself vendored (a copy of /repo/wire.go, removed with the scratch tree)
+        wv = os.path.join(vroot, "vendor", "github.com", "google", "wire")
+        os.makedirs(wv, exist_ok=True)
+        shutil.copy(os.path.join(REPO, "wire.go"), os.path.join(wv, "wire.go"))
+        p = gen(vroot, [mod + "/app", mod + "/beta"], env=genv)
+        if p.returncode == 0:
+            collect(vroot, "gopath-vendor-wire")
+        shutil.rmtree(wv, ignore_errors=True)
+        stats_layout = {"gopath": "gopath" in outs, "gopath-vendor": "gopath-vendor" in outs, "gopath-vendor-wire": "gopath-vendor-wire" in outs}
         # nested vendor: a vendored library with its own vendor directory whose package the generated code must name
         nroot = os.path.join(src, "example.com/n")
         nfiles = {
